@@ -2,3 +2,5 @@
 import Generated.Flags
 import Generated.Routes
 import Generated.Defaults
+import Generated.LockFacts
+import Generated.FieldAccess
